@@ -18,6 +18,10 @@ def id13(a, b, c, d, x):
     return spec.val_of([C1, A1, C2, A2, C4, A4, x, B1, D1, B2, D2, B4, D4])
 
 
+def oracle_id13(a, b, c, d, x):
+    return "".join(map(str, bits_of(id13(a, b, c, d, x), 13)))
+
+
 def ic_label(code):
     if code > 79:
         return "corrupt IC"
@@ -67,6 +71,10 @@ def cases(ctx):
                                     yield dict(op="surv.identity " + m, real=("pyModeS.surv.identity", [m]), expect=e, tag="surv.identity")
                             m = hex_of(spec.adsb_frame(rng, 28, [(11, 13, code)], df=rng.choice([17, 18])))
                             yield dict(op="emergency_squawk " + m, real=("pyModeS.adsb.emergency_squawk", [m]), expect=e, tag="tc28")
+    for n in range(4096):
+        a, b, c, d = n >> 9, (n >> 6) & 7, (n >> 3) & 7, n & 7
+        for x in (0, 1):
+            yield dict(op="spec.id13 %d %d %d %d %d" % (a, b, c, d, x), real=("h:props.C08.oracle_id13", [a, b, c, d, x]), tag="spec-tie", trivial=True)
     for s in ["", "0" * 12, "1" * 14]:
         yield dict(op=None, real=("pyModeS.common.squawk", [s]), expect="RE", tag="squawk-len", trivial=True)
     # FS x DR x IIS x IDS
